@@ -399,3 +399,86 @@ def unit_compile_block(eng, context, base_settled, start_kind, end_scope=False):
 
 def zstr_(v):
     return z3.StringVal(v) if isinstance(v, str) else v
+
+
+# ------------------------------------------------------------------ Compiler.compile_insn: instruction / metacommand / implicit word / unknown
+DISPATCH_KINDS = ["builtin", "builtin-other-case", "dotless-metacommand", "label-as-insn", "variable-bare", "variable(expr)", "variable-other-operand", "unknown", "unknown-dotted",
+                  "variable-of-another-file"]
+
+
+def unit_dispatch(eng, kind):
+    """Compiler.compile_insn decides what a statement 'name operands...' is: a built-in instruction or metacommand (any letter case; a
+    missing dot is a warning), a variable of this file (an implicit '.word name, ...' - exactly what the explicit '.word' compiles, through
+    compile_word_list), a label (an error), or unknown (an error).  Delegation passes the statement and the state on unchanged."""
+    name = "Compiler.compile_insn[%s]" % kind
+
+    def run(eng):
+        eng.I = {}
+        cmod = eng.load_module("compiler")
+        comp = compiler_obj(eng)
+        calls, wl = [], []
+        ci = eng.resolve_global(eng.load_module("containers"), "CaseInsensitiveDict")
+
+        def stub(tag):
+            o = Obj("Cmd", name="cmd:" + tag)
+            o.attrs["compile_insn"] = Builtin("compile_insn(contract)", lambda e, st, ins, _t=tag: calls.append((_t, st, ins)) or ("result-of", _t))
+            return o
+        table = eng.call(ci, [], {})
+        for k_ in ("mov", ".word"):
+            eng.call(eng.getattr(table, "__setitem__"), [k_, stub(k_)], {})
+        cmod["env"].vars["builtin_commands"] = table
+        comp.attrs["compile_word_list"] = Builtin("compile_word_list(contract)", lambda e, ins, words, st: wl.append((ins, list(words), st)) or ("word-list", len(words)))
+        spell = {"builtin": "mov", "builtin-other-case": "MoV", "dotless-metacommand": "WORD", "label-as-insn": "lab", "variable-bare": "x", "variable(expr)": "X",
+                 "variable-other-operand": "x", "unknown": "frob", "unknown-dotted": ".frob", "variable-of-another-file": "x"}[kind]
+        prefix = ".internal7."
+        label_tok = mk_token(eng, "Label", name="lab", local=False, is_extern=False)
+        asg_tok = mk_token(eng, "Assignment", target=mk_token(eng, "Symbol", name="x", is_necessarily_label=False), value=value_token(eng, 5, "five"), is_extern=False)
+        sym = comp.attrs["symbols"]
+        eng.call(eng.getattr(sym, "__setitem__"), [prefix + "lab", (label_tok, 0o1000)], {})
+        eng.call(eng.getattr(sym, "__setitem__"), [(".internal9." if kind == "variable-of-another-file" else prefix) + "x", (asg_tok, 5)], {})
+        ops = []
+        if kind == "variable(expr)":
+            inner = value_token(eng, int_input(eng, "e"), "e")
+            from contracts.insn import paren
+            ops = [paren(eng, inner, "(")]
+            eng.I["inner"] = inner
+        elif kind == "variable-other-operand":
+            ops = [value_token(eng, 1, "one")]
+        elif kind in ("builtin", "builtin-other-case", "dotless-metacommand"):
+            ops = [value_token(eng, 1, "one"), value_token(eng, 2, "two")]
+        insn = insn_token(eng, spell, ops)
+        state = {"insn": insn, "internal_symbol_prefix": prefix, "marker": object()}
+        eng.I.update(calls=calls, wl=wl, insn=insn, state=state, ops=ops)
+        return eng.call(eng.getattr(comp, "compile_insn"), [insn, state], {})
+
+    def post(eng, o):
+        I = eng.I
+        kind_, val = o
+        eng.prove("no-exception", kind_ == "return")
+        if kind_ != "return":
+            return
+        evs = [(e[0], e[1]) for e in eng.path.events if e[0] in ("error", "warning")]
+        same = lambda c: c[1] is I["state"] and c[2] is I["insn"]  # noqa
+        if kind in ("builtin", "builtin-other-case"):
+            eng.prove("a-built-in-name(any letter case)-is-compiled-by-that-command-with-the-same-state-and-statement", len(I["calls"]) == 1 and I["calls"][0][0] == "mov" and same(I["calls"][0])
+                      and val == ("result-of", "mov") and evs == [] and not I["wl"])
+        elif kind == "dotless-metacommand":
+            eng.prove("a-metacommand-without-its-dot-is-compiled-as-the-metacommand-with-a-meta-typo-warning", len(I["calls"]) == 1 and I["calls"][0][0] == ".word" and same(I["calls"][0])
+                      and val == ("result-of", ".word") and evs == [("warning", "meta-typo")])
+        elif kind == "label-as-insn":
+            eng.prove("a-label-used-as-an-instruction-name-is-an-error-and-emits-nothing", val is None and evs == [("error", "meta-type-mismatch")] and not I["calls"] and not I["wl"])
+        elif kind == "variable-bare":
+            eng.prove("a-variable-as-a-statement-is-the-implicit-word-list-of-itself", len(I["wl"]) == 1 and I["wl"][0][0] is I["insn"] and I["wl"][0][2] is I["state"]
+                      and len(I["wl"][0][1]) == 1 and I["wl"][0][1][0] is I["insn"].attrs["name"] and val == ("word-list", 1) and evs == [])
+        elif kind == "variable(expr)":
+            w = I["wl"][0][1] if len(I["wl"]) == 1 else []
+            ok = len(w) == 1 and isinstance(w[0], Obj) and w[0].attrs.get("lhs") is I["insn"].attrs["name"] and w[0].attrs.get("rhs") is I["inner"]
+            eng.prove("'x (expr)'-is-the-one-word-x(expr)(a call), any letter case of x", ok and evs == [] and val == ("word-list", 1))
+        elif kind == "variable-other-operand":
+            eng.prove("a-variable-followed-by-an-operand-without-a-comma-is-reported", evs == [("error", "meta-type-mismatch")])
+        elif kind in ("unknown", "unknown-dotted", "variable-of-another-file"):
+            eng.prove("an-unknown-name(also another file's private variable)-is-an-unknown-insn-error-and-emits-nothing", val is None and evs == [("error", "unknown-insn")] and not I["calls"] and not I["wl"])
+    r = verify(eng, name, run, post, func="compiler.Compiler.compile_insn")
+    for o_ in r["obligations"]:
+        o_["cfg"] = dict(kind="dispatch", which=kind)
+    return r
